@@ -271,7 +271,10 @@ aiff_ima_decode_block (SF_PRIVATE *psf, IMA_ADPCM_PRIVATE *pima)
 		} ;
 
 	if ((k = (int) psf_fread (pima->block, 1, pima->blocksize * pima->channels, psf)) != pima->blocksize * pima->channels)
-		psf_log_printf (psf, "*** Warning : short read (%d != %d).\n", k, pima->blocksize) ;
+	{	psf_log_printf (psf, "*** Warning : short read (%d != %d).\n", k, pima->blocksize) ;
+		/* Do not decode what an earlier block left in the buffer. */
+		memset (pima->block + k, 0, pima->blocksize * pima->channels - k) ;
+		} ;
 
 	/* Read and check the block header. */
 	for (chan = 0 ; chan < pima->channels ; chan++)
@@ -399,7 +402,10 @@ wavlike_ima_decode_block (SF_PRIVATE *psf, IMA_ADPCM_PRIVATE *pima)
 		} ;
 
 	if ((k = (int) psf_fread (pima->block, 1, pima->blocksize, psf)) != pima->blocksize)
-		psf_log_printf (psf, "*** Warning : short read (%d != %d).\n", k, pima->blocksize) ;
+	{	psf_log_printf (psf, "*** Warning : short read (%d != %d).\n", k, pima->blocksize) ;
+		/* Do not decode what an earlier block left in the buffer. */
+		memset (pima->block + k, 0, pima->blocksize - k) ;
+		} ;
 
 	/* Read and check the block header. */
 
